@@ -1,3 +1,7 @@
 import Bng.Spec.C19
+import Bng.Spec.C19Locks
+import Bng.Spec.C19Race
 import Bng.Audit
 #audit_module Bng.Spec.C19
+#audit_module Bng.Spec.C19Locks
+#audit_module Bng.Spec.C19Race
